@@ -277,6 +277,70 @@ func Run(r *mc.Run) {
 		"combinations": "1.5 KiB paragraph x every sibling size; 40 KiB x {none, 512, 31000, 32768}; 140 KiB x {none, 31000}; each x 6 control encodings; data file of 1 MiB+17 (thorough also 3 MiB+511) x 6 data encodings",
 		"filler":       "gen.PatternBytes (incompressible)"}, len(szIns), func(i int, st *mc.Stats) bool { return runIns(r, "sizes", c, szIns[i:i+1], st) })
 
+	// ---- scenario 1e: CONCATENATED streams. gzip members, xz streams, bzip2 streams and zstd frames may be concatenated;
+	// such a file is a valid .gz/.xz/.bz2/.zst and decodes to the concatenation. The control and the data tar are cut
+	// into 2 and 3 parts (a) at tar-entry boundaries and (b) inside an entry, each part compressed on its own.
+	{
+		var cins []In
+		base := func() In { return mkIn(ps[1], controlEntrySets[2], dfs[2], "gz", "gz", "", "") }
+		cutSets := func(raw []byte) [][]int {
+			offs := gen.TarEntryOffsets(raw)[1:] // every entry boundary, and the start of the trailer
+			var out [][]int
+			for _, o := range offs {
+				out = append(out, []int{o})
+			}
+			for i := 0; i < len(offs); i++ {
+				for j := i + 1; j < len(offs); j++ {
+					out = append(out, []int{offs[i], offs[j]})
+				}
+			}
+			mid := offs[len(offs)-2] + 512 + 7 // inside the last entry's header/body region
+			if mid >= offs[len(offs)-1] {
+				mid = offs[len(offs)-1] - 100
+			}
+			out = append(out, []int{300}, []int{mid}, []int{offs[0], mid}, []int{len(raw) - 512})
+			return out
+		}
+		ctlRaw, datRaw := base().Model.ControlTar(), base().Model.DataTar()
+		for _, a := range comps {
+			if !gen.DebCompConcatenates(a) {
+				continue
+			}
+			for _, cs := range cutSets(ctlRaw) {
+				in := base()
+				in.Model.ControlComp, in.Model.ControlCuts = a, cs
+				in.Name = fmt.Sprintf("control.tar.%s made of %d concatenated streams (tar cut at %v), data gz", a, len(cs)+1, cs)
+				cins = append(cins, in)
+			}
+			for _, cs := range cutSets(datRaw) {
+				in := base()
+				in.Model.DataComp, in.Model.DataCuts = a, cs
+				in.Name = fmt.Sprintf("data.tar.%s made of %d concatenated streams (tar cut at %v), control gz", a, len(cs)+1, cs)
+				cins = append(cins, in)
+			}
+		}
+		// all external (xz, bz2) parts in one batch
+		var parts [][]byte
+		for _, in := range cins {
+			raw, cuts := ctlRaw, in.Model.ControlCuts
+			if len(in.Model.DataCuts) > 0 {
+				raw, cuts = datRaw, in.Model.DataCuts
+			}
+			prev := 0
+			for _, k := range append(append([]int{}, cuts...), len(raw)) {
+				parts = append(parts, raw[prev:k])
+				prev = k
+			}
+		}
+		if err := c.Prepare([]string{"xz", "bz2"}, parts...); err != nil {
+			r.HarnessError("compressor (concatenated parts): %v", err)
+			return
+		}
+		r.Scenario("concatenated-streams", map[string]interface{}{"formats": "gz members, xz streams, bz2 streams, zstd frames (lzma_alone has no concatenation)", "members": "control and data",
+			"parts": "2 and 3", "cuts": "every tar-entry boundary (singly and in pairs, incl. the start of the end-of-archive trailer), offsets 300 and one inside the last entry, boundary+inside, last 512 bytes"},
+			len(cins), func(i int, st *mc.Stats) bool { return runIns(r, "concatenated-streams", c, cins[i:i+1], st) })
+	}
+
 	// ---- scenario 1d: alphabet audit (empty on the unchanged tree)
 	auditScenario(r, c, comps, ps, dfs)
 
